@@ -53,6 +53,12 @@ def plan(tier, seed):
             base = {nm: b64(P["good"]) for nm in names}
             group = f"{pname}|n{n}"
             jobs.append(mkjob(pname, n, None, None, base, rf, {"snap": False}, group))
+            cms_ = P["argv"][P["argv"].index("--codemod-include") + 1].split(",")
+            if len(cms_) > 1:
+                # what each codemod does to the ORIGINAL files on its own: the yardstick for a codemod that runs after another one failed on a file
+                for cm_ in cms_:
+                    jb = mkjob(pname, n, "only", None, base, rf, {"snap": False}, group, extra="|" + cm_); jb["only_cm"] = cm_
+                    jb["argv"] = [a if a != ",".join(cms_) else cm_ for a in jb["argv"]]; jobs.append(jb)
             positions = list(range(n)) if not quick else [0, n - 1]
             for i in positions:
                 for kind in ("invalid-utf8", "nul-byte", "syntax-error", "latin1-cookie", "invalid-utf8-before-site-same-line", "invalid-utf8-inside-site", "invalid-utf8-after-site-same-line"):
@@ -82,10 +88,11 @@ def plan(tier, seed):
         for i in ([0] if quick else ([0, n - 1] if n > 3 else [0, 1, 2])):
             for j in js:
                 jobs.append(mkjob(pname, n, "failpoint", i, base, rf, {"snap": False, "faults": [{"kind": "failpoint", "file": names[i], "j": j}]}, group, names[i], base[names[i]], extra=f"#j{j}"))
+    jobs.sort(key=lambda j: 0 if j["fault"] in (None, "only") else 1)     # judged in plan order: baselines first
     return jobs
 
 ENTRIES = {}
-_base = {}; _pending = collections.defaultdict(list)
+_base = {}; _pending = collections.defaultdict(list); _only = collections.defaultdict(dict)
 def per_file(run):
     out = {}
     rep = run["report"] or {"results": []}
@@ -144,6 +151,17 @@ def evaluate(job, run, base):
             n_unf = len([u for u in (r.get("unfixedFindings") or []) if u["path"] == bad])
             if n_unf != job["n_findings"]:
                 V(f"findings-not-unfixed/{fk}/{cm}", f"{bad} has {job['n_findings']} reported findings but {n_unf} unfixedFindings entries after the fault" + (f" (fault at {faults_hit[0].get('where')}, entry #{faults_hit[0].get('j')})" if faults_hit else ""))
+    # a codemod that was NOT hit by the injected fault and runs after the codemod that was: it still sees the original file and must treat it as it does on its own
+    if fk in ("failpoint", "raise_transform") and hit_cms and order and order[0] in hit_cms:
+        for k in order[1:]:
+            if k in hit_cms or k not in _only.get(job["group"], {}): continue
+            r = results[k]; alone = _only[job["group"]][k].get(bad, {"changes": [], "failed": []})
+            mine_k = [(cs["diff"], [(c["lineNumber"], c["description"]) for c in cs["changes"]]) for cs in r["changeset"] if cs["path"] == bad]
+            want_k = [(d_, [(ln, de) for ln, de, nf in ch]) for cmx, d_, ch in alone["changes"]]
+            if any(os.path.basename(f) == bad for f in (r.get("failedFiles") or [])):
+                V(f"later-codemod-skips-file-failed-earlier/{fk}/{cm}", f"{k} lists {bad} as failed although only {hit_cms} was hit by the fault")
+            elif mine_k != want_k:
+                V(f"later-codemod-outcome-differs/{fk}/{cm}", f"{k} on {bad}: {len(mine_k)} changeset(s) after {hit_cms} failed on it, {len(want_k)} when it runs alone")
     if set(hit_cms) >= set(results) and fk != "vanish" and pf.get(bad, {}).get("bytes") != "F:" + job["bad_bytes"]:
         V(f"bad-file-modified/{fk}/{cm}", f"{bad} was modified although no codemod could process it")
     return v, True
@@ -158,6 +176,9 @@ def judge(job, res):
         for e in r2["trace"]:
             if e["k"] == "fault" and e.get("where"): st["failpoint_sites"] = st.get("failpoint_sites", 0) + 1
         v.extend(x)
+    if job["fault"] == "only":
+        if run["rc"] == 0 and not run["exc"]: _only[job["group"]][job["only_cm"]] = per_file(run)
+        return v, st, nt
     if job["fault"] is None:
         if run["rc"] != 0 or run["exc"]:
             v.append(Violation("C10", f"baseline-run-failed/{job['pipe']}", f"fault-free run failed rc={run['rc']} exc={run['exc']}", {"log": run["log"][-800:]})); return v, st, nt
